@@ -9,19 +9,27 @@ import mockca
 import tacdrun
 import vlib
 from ext import auditd_c16, auditd_tacd
+from ext import idnagen
 
 FINISH = dict(
     level="proof",
     trusted_base=[
         "Lean 4.33 kernel; axioms of every theorem within {propext, Classical.choice, Quot.sound}",
-        "Lean compiler for acmed_model (own SHA-256, base64url, punycode-free judge)",
-        "the in-crate probe op `proof` (real Challenge::get_proof), the real tacd (dev profile), a Python TLS "
-        "client, vhelper's DER parsing of the peer certificate (OpenSSL), Python's punycode codec for the "
-        "expected A-label",
+        "Lean compiler for acmed_model (own SHA-256, base64url, punycode-free judge; Model.Lower / Model.Idna for the "
+        "expected A-label)",
+        "the in-crate probe ops `proof` (real Challenge::get_proof), `idna`, `lower_tables`; the real tacd (dev profile), "
+        "a Python TLS client sending the A-label as SNI, vhelper's DER parsing of the peer certificate (OpenSSL); "
+        "Python's punycode codec and Unicode data in the independent judge of py/ext/idnagen.py",
+        "Unicode lower-casing: tabulated on every run from the compiled std over every scalar value (Gen/Lower.lean); "
+        "the string-level rule (Model.Lower.lowerFull) tied by correspondence",
         "modelled, not verified: the TLS handshake, ALPN processing and X.509 encoding are OpenSSL's",
     ],
-    rule="servers: random domains (ASCII, IDN, mixed case, 1..5 labels, surrounding white space for file/stdin "
-         "sources), random tokens and account keys of 7 types -> the daemon's own get_proof renders the "
+    rule="servers: random domains (ASCII and mixed case, 1..5 labels; half of them from py/ext/idnagen.py: every script "
+         "with case, capital sigma in final / medial / isolated / after-apostrophe / before-mark / after-soft-hyphen "
+         "positions, U+0130, title-case digraphs, Kelvin sign, astral scripts, decomposed spellings, caseless scripts; "
+         "each through the real to_idna, Model.Lower.toIdnaFull and the independent judge first; surrounding white "
+         "space for file/stdin sources), the expected SAN is the MODEL's to_idna(domain) and is the SNI the client "
+         "sends; random tokens and account keys of 7 types -> the daemon's own get_proof renders the "
          "acmeIdentifier text (compared with Model.Jose's rendering) -> real tacd started with every "
          "certificate key type x digest, values by flag / file / stdin, TCP and unix listeners; for each server "
          "the client offers [acme-tls/1], [h2, acme-tls/1], [acme-tls/1, h2], [h2], [http/1.1, h2], none; the "
@@ -46,6 +54,8 @@ OFFERS = [["acme-tls/1"], ["h2", "acme-tls/1"], ["acme-tls/1", "h2"], ["h2"], ["
 
 
 def alabel(domain):
+    """Python's own reading (str.lower + punycode codec): only the fall-back for names without a value agreed between the
+    real to_idna, the model and the judge of py/ext/idnagen.py (refused names, which are observed and not judged)."""
     out = []
     for lab in domain.strip().split("."):
         if all(ord(c) < 128 for c in lab):
@@ -115,7 +125,9 @@ def one(sc, binary, scratch):
             tacdrun.behave(t.listen, sc["prelude"], [])
         for k, offer in enumerate(OFFERS):
             # every other client speaks TLS 1.2 at most (a validation server may: RFC 8737 §3)
-            res["shakes"].append((offer, tacdrun.handshake(t.listen, offer, timeout=6.0,
+            # the client asks for the name as a validation server does: SNI = the A-label (RFC 8737 section 3)
+            sni = sc["alabel"] if idnagen.HOST_RE.match(sc["alabel"]) else "example.org"
+            res["shakes"].append((offer, tacdrun.handshake(t.listen, offer, server_name=sni, timeout=6.0,
                                                            max_tls12=(sc["idx"] + k) % 2 == 1)))
         res["alive"] = t.alive()
     finally:
@@ -131,8 +143,9 @@ def run(ctx):
     if ctx.replay:
         return replay(ctx)
     gen.gen_consts()
-    ctx.prove()
     vlib.build_acmed()
+    gen.gen_lower()
+    ctx.prove()
     vlib.build_helper()
     binary = vlib.build_tacd(release=False)
     helper = mockca.Helper()
@@ -146,8 +159,9 @@ def run(ctx):
     finally:
         helper.close()
         shutil.rmtree(scratch, ignore_errors=True)
-    ctx.assumptions = ["expected A-labels computed with Python str.lower + punycode codec on letters whose "
-                       "lower-casing Python and Rust agree on"]
+    ctx.assumptions = ["reading of 'A-label': xn-- + RFC 3492 punycode of the label lower-cased by str::to_lowercase; no NFC / "
+                       "UTS-46 mapping (the code does none); domains of the idnagen pool whose A-label is not a well-formed host "
+                       "name (a label over 63 octets) are not given to tacd"]
     return ctx.finish(**FINISH)
 
 
@@ -157,8 +171,9 @@ def build_scenarios(ctx, helper, fixed=None):
     keys = {kt: helper.call({"op": "gen_key", "type": kt}) for kt in KEYTYPES if kt != "rsa4096" or not ctx.quick()}
     scenarios = []
     specs = fixed or []
+    idn = [] if fixed else idnagen.pool(ctx, n // 2, wildcard_ok=False, prefix="domains:")
     while len(specs) < n and not fixed:
-        dom = gen_domain(rng)
+        dom = idn.pop(0)["raw"] if idn and len(specs) % 2 == 0 else gen_domain(rng)
         source = rng.choice(["flag", "flag", "file", "stdin", "stdin-both"])
         text = dom if source == "flag" else rng.choice(["", " ", "\t"]) + dom + rng.choice(["", " ", "\n", " \n"])
         specs.append({"domain": dom, "domain_text": text, "source": source,
@@ -177,6 +192,9 @@ def build_scenarios(ctx, helper, fixed=None):
     impl = vlib.probe(pops)
     mods = vlib.model([{"op": "proof", "token": s["token"],
                         "thumbprint_input": keys[s["acct_key"]]["thumbprint_input"], "type": "tls-alpn-01"} for s in specs])
+    # the expected SAN: the MODEL's to_idna(domain), for domains on which the real to_idna, the model and the
+    # independent judge agree (a disagreement is reported there)
+    alabels = idnagen.evaluate(ctx, sorted({(s["domain"], ()) for s in specs}), prefix="domains:")
     for i, (s, pi, pm) in enumerate(zip(specs, impl, mods)):
         if not isinstance(pi, dict) or "proof" not in pi:
             ctx.violation("get_proof failed for a tls-alpn-01 challenge: %s" % pi, {"spec": s})
@@ -186,7 +204,8 @@ def build_scenarios(ctx, helper, fixed=None):
             ctx.violation("the acmeIdentifier text rendered by get_proof differs from RFC 8737's (model): %s vs %s"
                           % (pi["proof"], pm.get("proof")), {"spec": s, "impl": pi, "model": pm})
             continue
-        sc = dict(s, idx=i, ext=pi["proof"], digest_hex=pm["digest_hex"], alabel=alabel(s["domain"]))
+        sc = dict(s, idx=i, ext=pi["proof"], digest_hex=pm["digest_hex"],
+                  alabel=alabels.get(s["domain"]) or alabel(s["domain"]))
         scenarios.append(sc)
     return scenarios
 
@@ -201,6 +220,10 @@ def execute(ctx, scenarios, binary, scratch, helper):
         ctx.count("listener:" + sc["listener"])
         ctx.count("crt:%s/%s" % (sc["crt_key"], sc["crt_digest"]))
         ctx.count("idn" if sc["alabel"] != sc["domain"].lower() else "ascii")
+        if idnagen.SIGMA in sc["domain"]:
+            ctx.count("domain:capital-sigma")
+        if not sc.get("auditd"):
+            ctx.count("sni:" + ("alabel" if idnagen.HOST_RE.match(sc["alabel"]) else "default"))
         auditd_c16.count(ctx, sc)
         if auditd_c16.observe_only(ctx, sc, r):
             continue
@@ -244,6 +267,8 @@ def execute(ctx, scenarios, binary, scratch, helper):
 
 
 def replay(ctx):
+    if idnagen.is_replay(ctx.replay):
+        return idnagen.replay_file(ctx.replay)
     with open(ctx.replay) as f:
         r = json.load(f)
     obj = r.get("replay", r)
